@@ -40,7 +40,10 @@ MANIFEST = {
             "process equals the plain run for every validation_steps / checkpoint_steps / start_with_validation, the window-mean "
             "theorem holds with events inside the window, across every history of kills / stops / resumes (also inside windows) "
             "iteration t runs with last_epoch = t and the scheduler advances exactly num_iterations times, and histories that "
-            "only resume at window boundaries reproduce the uninterrupted run. Mixed precision: the translated GradScaler "
+            "only resume at window boundaries reproduce the uninterrupted run; the predicate also demands the prologue's "
+            "zero_grad, so gradients already on the parameters when train() is entered (user backward pass, a previous train() "
+            "that ended inside a window) never reach the first step. Clipping with additional models is ONE clip_grad_norm_ "
+            "call over the union of all optimised parameters (translated clipForm; clip_one_call_is_global). Mixed precision: the translated GradScaler "
             "protocol of the step branch (div_, unscale_ before clip, scaler.step, scaler.update) delivers the unscaled "
             "(clipped) mean for every scale S != 0. "
             "Tied to the code by the translated statement table + guards + divided/clipped parameter scope, the between-table, "
@@ -86,7 +89,9 @@ RULE = ("toy linear model with L1 sum loss (integer-valued gradients), k in 1..4
         "batch sizes 1..4, SGD with momentum 0 or 1/2, WarmupMultiStepLR with dyadic parameters, with/without an additional "
         "model, with/without OOM-skipped iterations; histories of 1..3 processes over 9..14 iterations with validation data, "
         "validation_steps and checkpoint_steps in {2,3,4,5,7} that are not multiples of k, start_with_validation, SIGINT kill "
-        "before/after backward, clean stop + resume (also inside windows); enabled GradScaler with scales 2..64 and growth "
+        "before/after backward, clean stop + resume (also inside windows), processes entered with a stale gradient on the "
+        "parameters, a second train() on the same objects after an incomplete window; clipping x 1-2 additional models with "
+        "gradient scales 8 / 1/8 / 4 / 1/4 and thresholds 0.25..2 x the global norm; enabled GradScaler with scales 2..64 and growth "
         "interval 1..3, with/without clipping; real Unet2d / RIM (steps 1, 2) / EndToEndVarNet / VSharpNet / Unet2dSSL / Unet2dJSSL / "
         "Unet2d+sensitivity_model engines on 8x8 two-coil data, k in 1..4, SGD/Adam; non-trivial = k >= 2 and at least one "
         "completed window; distinct = distinct protocol line / oracle configuration")
@@ -566,7 +571,8 @@ def correspondence(ctx: Ctx):
 
         shape = "+".join("kill" if p[1] >= 0 else ("stop" if p[0] < c["T"] else "run") for p in procs)
         yield {"line": ev.history_line(c, val, procs, codes), "impl": impl_hist, "nontrivial": c["k"] >= 2,
-               "bucket": f"history/k{c['k']}/{shape}/" + ("val" if val[1] else "noval")}
+               "bucket": f"history/k{c['k']}/{shape}/" + ("val" if val[1] else "noval")
+                         + ("/stale-grads" if any(p[5] >= 0 for p in procs) else "")}
 
 
 # ==================================================================================================
@@ -942,6 +948,61 @@ def oracle(ctx: Ctx, deep: bool = False):
                                 f"reference {rw}", _cfg_replay(c2, check="ampclip", scaler=scaler[1], val_steps=val[0],
                                                                iteration=it))
                 break
+    # (2f) clipping x additional models: 1-2 additional models whose gradients have very different norms, thresholds below
+    # and above the global norm; the reference clips the window mean over ALL optimised parameters against its global norm
+    for i in range(ctx.budget(8, 80) + (24 if deep else 0)):
+        c = gen_cfg(rng, k=[1, 2, 3, 4][i % 4], T=rng.randint(6, 12))
+        c["X"] = [[v if v else 1 for v in row] for row in c["X"]]
+        scales = [[8.0], [8.0, 0.125], [0.125], [4.0, 0.25]][(i + i // 4) % 4]
+        c["aux_scales"] = scales
+        probe = ev.clip_aux_reference(c, scales, 0.0)
+        if probe is None:
+            ctx.hist["oracle/clip-aux/kink-ambiguous-skipped"] = ctx.hist.get("oracle/clip-aux/kink-ambiguous-skipped", 0) + 1
+            continue
+        # the global norm of the first window's mean gradient, from the unclipped probe: first parameter change / lr
+        k0 = c["k"] - 1
+        w_before = [float(v) for v in c["w0"]] + [0.0] * (c["d"] * len(scales))
+        lr0 = float(lr_closed_form(c["sched"], k0))
+        n0 = sum(((a - b) / lr0) ** 2 for a, b in zip(w_before, probe[0][k0][0])) ** 0.5 if c["T"] > k0 and lr0 else 0.0
+        if n0 == 0.0:
+            continue
+        clip = n0 * [0.25, 0.5, 2.0, 0.75][i % 4]          # mostly below the global norm (clipping active), sometimes above
+        c["clip"] = clip
+        ref = ev.clip_aux_reference(c, scales, clip)
+        if ref is None:
+            continue
+        with scratch_dir() as d:
+            r = ev.run_eprocess(d, c, total=c["T"], resume=False, has_val=False)
+        ctx.count(("clip-aux", tuple(scales), clip, proto("loop", toy_groups(c))), True,
+                  bucket=f"oracle/clip-aux/k{c['k']}/{len(scales)}aux/" + ("active" if ref[1] else "inactive"))
+        for it, ((w, lr), (rw, rlr)) in enumerate(zip(r["records"], ref[0])):
+            if max(abs(a - b) for a, b in zip(w, rw)) > 1e-9 or len(r["records"]) != len(ref[0]):
+                yield Violation("clip-not-global-norm-additional-models",
+                                f"k={c['k']}, additional models with gradient scales {scales}, gradient_clipping={clip:.6g} "
+                                f"(global norm of the first mean gradient {n0:.6g}): parameters after iteration {it} are {w}, "
+                                f"the step on the mean gradient clipped against the global norm over all optimised "
+                                f"parameters gives {rw}", _cfg_replay(c, check="clipaux", iteration=it))
+                break
+    # (2g) a second train() on the SAME engine / model / optimiser objects after a phase that ended inside a window: the
+    # pending gradients of phase 1 must not enter the first step of phase 2
+    for i in range(ctx.budget(4, 40) + (12 if deep else 0)):
+        k = [2, 3, 4, 2][i % 4]
+        c = gen_cfg(rng, k=k, T=rng.randint(6, 10))
+        c["opt"] = ("sgd", Fr(0))
+        c["X"] = [[v if v else (3 if k == 3 else 1) for v in row] for row in c["X"]]     # multiples of 3: /3 stays exact
+        t1 = rng.choice([t for t in range(1, 8) if t % k != 0])
+        ph = ev.run_two_phase(c, t1, c["T"])
+        c2 = dict(c, w0=[Fr(v) for v in ph[0]["w"]])
+        ref = reference_run(c2)
+        ctx.count(("two-phase", t1, proto("loop", toy_groups(c))), True, bucket=f"oracle/two-phase/k{k}/pending{t1 % k}")
+        for it, ((w, lr), (rw, rlr)) in enumerate(zip(ph[1]["records"], ref)):
+            if [Fr(v) for v in w] != rw or Fr(lr) != rlr:
+                yield Violation("stale-gradients-enter-first-step",
+                                f"k={k}: second train() on the same objects after a phase of {t1} iterations (gradients "
+                                f"{ph[0]['pending']} pending): parameters after iteration {it} of the second phase are {w}, "
+                                f"the step on the mean gradient of its own window gives {[float(v) for v in rw]}",
+                                _cfg_replay(c, check="twophase", t1=t1, iteration=it))
+                break
     # (2e) … through engines that override `_do_iteration` (RIM with model.steps = 2, VSharpNet, the SSL base engine) and an
     # engine with an additional `sensitivity_model` in `self.models` sharing the optimiser
     from props import c16_engines as en
@@ -989,6 +1050,20 @@ def replay(rep: dict) -> bool:
     if rep.get("op") == "real-engine":
         return real_engine_check(rep["engine"], rep["k"], rep["T"], rep["bs"], rep["opt"], rep["seed"])[1] is not None
     c = _cfg_from_replay(rep)
+    if rep.get("check") == "clipaux":
+        from props import c16_events as ev
+
+        ref = ev.clip_aux_reference(c, c["aux_scales"], c["clip"])
+        with scratch_dir() as d:
+            r = ev.run_eprocess(d, c, total=c["T"], resume=False, has_val=False)
+        return ref is not None and any(max(abs(a - b) for a, b in zip(w, rw)) > 1e-9
+                                       for (w, _), (rw, _) in zip(r["records"], ref[0]))
+    if rep.get("check") == "twophase":
+        from props import c16_events as ev
+
+        ph = ev.run_two_phase(c, rep["t1"], c["T"])
+        ref = reference_run(dict(c, w0=[Fr(v) for v in ph[0]["w"]]))
+        return any([Fr(v) for v in w] != rw for (w, _), (rw, _) in zip(ph[1]["records"], ref))
     if rep.get("check") == "history":
         from props import c16_events as ev
 
